@@ -166,10 +166,17 @@ def _dom(f):
 
 
 def _list_calls(f, defs, callee, cd):
-    """[(kind, endpoint, only_if_undirected)] for calls to add/remove_edge_from_list."""
+    """[(kind, endpoint, condition)] for the adjacency updates of f: calls to add/remove_edge_from_list, and read-modify-writes
+    of an adjacency key done in place (the helper inlined, or written out).  condition: 'always' | 'undirected' | 'directed'
+    (which value of `directed` the update is control dependent on)."""
     out = []
-    for c in A.calls_to(f, GE + callee):
-        pc = _producer(f, defs, c.arg_local(1)) if c.arg_local(1) is not None else None
+    sites = [(c, c.arg_local(1)) for c in A.calls_to(f, GE + callee)]
+    for (g, p) in rmw_sites(f, defs):
+        if p.args[1][0] != 'k':
+            sites.append((p, p.args[1][1][0]))
+    dom = _dom(f)
+    for c, kl in sites:
+        pc = _producer(f, defs, kl) if kl is not None else None
         kind, ep = '?', '?'
         if pc is not None:
             if pc.resolved.endswith('outgoing_edges_key'):
@@ -178,29 +185,36 @@ def _list_calls(f, defs, callee, cd):
                 kind = 'in'
             if pc.args:
                 ep = _direct_operand(f, defs, pc.args[0]) or '?'
-        # condition: the nearest enclosing tests include a direct test of `directed`
-        und = False
+        if kind == '?' and c.resolved.endswith('TensorStore::put'):
+            continue   # an in-place write of something that is not an adjacency list
+        cond = 'always'
         frontier, seen = [c.bb], set()
-        dom = _dom(f)
         for _ in range(12):
             nxt = []
             for b in frontier:
-                for (a, s) in cd.get(b, ()):
+                for (a, s_) in cd.get(b, ()):
                     if a in seen or a not in dom[c.bb]:
                         continue   # tests of an earlier loop iteration do not dominate the call
                     seen.add(a)
                     t = f.bbs[a]['t']
                     if t[0] == 'sw' and _direct_operand(f, defs, t[1]) == 'directed':
-                        und = True
+                        zero = dict(t[2]).get('0')
+                        cond = 'undirected' if s_ == zero else 'directed'
                     nxt.append(a)
             frontier = nxt
-        out.append((kind, ep, und))
-    return sorted(out)
+        out.append((kind, ep, cond))
+    return sorted(set(out))
+
+
+def _modes(calls):
+    d = {(k, e) for (k, e, c) in calls if c in ('always', 'directed')}
+    u = {(k, e) for (k, e, c) in calls if c in ('always', 'undirected')}
+    return d, u
 
 
 def r05b(ctx, rep, cr):
-    rep.rule('R05b', 'create/delete symmetry: the (list kind, endpoint, only-if-undirected) triples passed to add_edge_to_list in '
-                     'create_edge (and create_edge_internal) equal those passed to remove_edge_from_list in delete_edge; the sequential '
+    rep.rule('R05b', 'create/delete symmetry: the (list kind, endpoint) pairs linked by create_edge (and create_edge_internal) — through '
+                     'add_edge_to_list or by an in-place update of the list — for a directed and for an undirected edge equal those unlinked by delete_edge (two for a directed edge, four for an undirected one); the sequential '
                      'and the parallel branch of delete_node issue the same removals')
     fs = {}
     for name, callee in (('create_edge', 'add_edge_to_list'), ('create_edge_internal', 'add_edge_to_list'), ('delete_edge', 'remove_edge_from_list')):
@@ -209,7 +223,8 @@ def r05b(ctx, rep, cr):
             return
         fs[name] = _list_calls(f, A.Defs(f), callee, A.control_deps(f))
     for name in ('create_edge', 'create_edge_internal'):
-        if fs[name] == fs['delete_edge'] and len(fs[name]) == 4 and all(k != '?' and e != '?' for (k, e, _) in fs[name]):
+        if _modes(fs[name]) == _modes(fs['delete_edge']) and len(_modes(fs[name])[1]) == 4 and len(_modes(fs[name])[0]) == 2 and \
+                all(k != '?' and e != '?' for (k, e, _) in fs[name]):
             rep.holds('R05b', GE + name, 'lists', '%s' % fs[name])
         else:
             rep.violation('R05b', GE + name, 'asymmetry', cr.fns[GE + name].loc(),
@@ -422,6 +437,79 @@ def r05g(ctx, rep, cr):
         rep.holds('R05g', 'graph_engine', 'order-assuming calls on adjacency lists', 'none')
 
 
+def _key_root(f, defs, op, depth=10):
+    """the local a key operand is, looked through borrows, copies, Deref / as_str / clone"""
+    if op[0] == 'k':
+        return None
+    l = op[1][0]
+    for _ in range(depth):
+        if 1 <= l <= f.argc:
+            return l
+        d = A.single_def(defs, l)
+        if d is None:
+            return l
+        if d[2] == 'call':
+            c = d[3]
+            if re.search(r'(Deref>?::deref|AsRef<.*>>?::as_ref|Borrow<.*>>?::borrow|::as_str|Clone>?::clone)$', c.generic + ' ' + c.resolved) and c.arg_local(0) is not None:
+                l = c.arg_local(0)
+                continue
+            return l
+        rv = d[3][1]
+        if rv[0] == 'ref':
+            l = rv[1][0]
+        elif rv[0] == 'use' and rv[1][0] in ('c', 'm'):
+            l = rv[1][1][0]
+        else:
+            return l
+    return l
+
+
+def r05h(ctx, rep, cr, cg):
+    rep.rule('R05h', 'the lock that covers an adjacency read-modify-write is the lock of that list: wherever a GraphEngine function reads an '
+                     'adjacency list (a key built by outgoing_edges_key / incoming_edges_key, or the key parameter of add_edge_to_list / '
+                     'remove_edge_from_list) and writes it back, a guard obtained from adjacency_lock(k) is live from the get to the put, and '
+                     'k is the very key that is read and written (same value up to borrows and copies). The stripes are chosen by key: a '
+                     'section that updates node:N:in under the stripe of node:N:out does not exclude the writers that lock node:N:in')
+    n = 0
+    for name, f in sorted(cr.fns.items()):
+        if not name.startswith(GE) or '{closure' in name:
+            continue
+        if not A.calls_to(f, PUT) or not A.calls_to(f, GET):
+            continue
+        defs = A.Defs(f)
+        anchor = name in (GE + 'add_edge_to_list', GE + 'remove_edge_from_list')
+        for k_, (g, p) in enumerate(rmw_sites(f, defs)):
+            sig = A.backward_slice(f, [p.args[1]], defs).calls if p.args[1][0] != 'k' else set()
+            if not anchor and not any(re.search(r'(outgoing|incoming)_edges_key$', x) for x in sig):
+                continue
+            n += 1
+            rep.analysed(f)
+            kr = _key_root(f, defs, p.args[1])
+            gr = _key_root(f, defs, g.args[1])
+            right, wrong = [], []
+            for gd in A.guards(f, defs):
+                if not any(x.endswith('adjacency_lock.<returned lock>') for x in gd.lock_fields):
+                    continue
+                live = A.live_positions(f, gd.acq, gd.kills, must=True)
+                if not (A.live_at(live, (g.bb, len(f.bbs[g.bb]['s']))) and A.live_at(live, (p.bb, len(f.bbs[p.bb]['s'])))):
+                    continue
+                d = A.single_def(defs, gd.root)
+                lk = _key_root(f, defs, d[3].args[1]) if d and d[2] == 'call' and len(d[3].args) > 1 else None
+                (right if lk is not None and lk in (kr, gr) else wrong).append(lk)
+            if right:
+                rep.holds('R05h', f, 'rmw#%d' % k_, 'under adjacency_lock of the same key')
+            elif wrong:
+                rep.violation('R05h', f, 'rmw-under-another-lists-lock', f.loc(g.line),
+                              'the adjacency list read at line %d and written back at line %d is covered only by the adjacency lock of a '
+                              'different key: writers that take this list\'s own stripe run concurrently and entries are lost' % (g.line, p.line))
+            elif not anchor and not held_on_entry(cg, f.name, 3):
+                rep.violation('R05h', f, 'unlocked-rmw', f.loc(g.line),
+                              'an adjacency list is read (line %d) and written back (line %d) with no adjacency lock held' % (g.line, p.line))
+            else:
+                rep.holds('R05h', f, 'rmw#%d' % k_, 'lock held by the callers (R05a)')
+    rep.floor('R05h', 'adjacency RMW sites', n, 2)
+
+
 def run(ctx, rep):
     cr = ctx.crate('graph_engine')
     cg = ctx.callgraph(['graph_engine'])
@@ -432,3 +520,4 @@ def run(ctx, rep):
     r05e(ctx, rep, cr)
     r05f(ctx, rep, cr)
     r05g(ctx, rep, cr)
+    r05h(ctx, rep, cr, cg)
